@@ -49,7 +49,67 @@ HENC_CASES = [
 ]
 
 
+def _enttab(name):
+    """Complete enumeration of the generated entity table (finite): equals the WHATWG list (the copy shipped with
+    Python: html.entities.html5, taken from the standard's entities.json) plus every proper prefix with (0, 0); and the
+    facts the Verus unit u_hcr ASSUMES of the table (axiom_ent_table, named_entities_get) hold for it."""
+    import html.entities
+    import subprocess
+    t0 = time.time()
+    path, err = replayer.build_tool('enttab')
+    if path is None:
+        return dict(name=name, status='undecided', reason='replay tool enttab did not build: ' + err[-300:], harnesses=[], failures=[])
+    out = subprocess.run([path], capture_output=True, text=True, timeout=300).stdout
+    table = {}
+    for line in out.split('\n'):
+        if not line or line.startswith('#'):
+            continue
+        k, a, b = line.split('\t')
+        table[k] = (int(a), int(b))
+    problems = []
+    want = {}
+    for nm, val in html.entities.html5.items():
+        cps = [ord(c) for c in val]
+        want[nm] = (cps[0], cps[1] if len(cps) > 1 else 0)
+        if len(cps) > 2:
+            problems.append('WHATWG entry %r has more than two code points' % nm)
+    full = {k: v for k, v in table.items() if v[0] != 0}
+    for k in sorted(set(want) | set(full)):
+        if want.get(k) != full.get(k):
+            problems.append('entity &%s: table has %r, WHATWG list has %r' % (k, full.get(k), want.get(k)))
+    prefixes = set()
+    for k in want:
+        for n in range(0, len(k)):
+            prefixes.add(k[:n])
+    for k, v in table.items():
+        if v[0] == 0 and (v != (0, 0) or k not in prefixes or k in want):
+            problems.append('entry %r -> %r is neither an entity nor a proper prefix mapped to (0, 0)' % (k, v))
+        if not all(c.isascii() and (c.isalnum() or c == ';') for c in k):
+            problems.append('key %r has a character that is neither ASCII alphanumeric nor ";"' % k)
+        for cp in v:
+            if cp > 0x10FFFF or 0xD800 <= cp <= 0xDFFF:
+                problems.append('entry %r has a value that is not a scalar value' % k)
+    for p in prefixes:
+        if p not in table:
+            problems.append('proper prefix %r of an entity is missing from the table' % p)
+    if '' not in table:
+        problems.append('the empty prefix is missing')
+    secs = round(time.time() - t0, 2)
+    ok = not problems and len(table) > 2231
+    bound = 'complete enumeration: all %d entries of the generated table vs the %d WHATWG entities and their %d proper prefixes' % (len(table), len(want), len(prefixes))
+    h = dict(name='enttab (exhaustive table comparison)', complete=False, bound=bound, ok=ok, seconds=secs)
+    res = dict(name=name, status='pass' if ok else 'violation', reason='', harnesses=[h], failures=[], cmd='replay/src/bin/enttab.rs | compare with html.entities.html5',
+               trusted=['the WHATWG list is taken from Python\'s html.entities.html5 (generated from the standard\'s entities.json)'], functions=[])
+    if problems:
+        conc = dict(tool='replay/src/bin/enttab.rs', kind='entity-table-mismatch', input=problems[0], observed=problems[:20], raw='\n'.join(problems[:50]))
+        res['failures'].append(dict(fn='<entity table>', kind='enumeration', text=problems[0][:160], message='the generated entity table differs from the WHATWG list / violates an assumed table fact',
+                                    rendered='\n'.join(problems[:50]), concrete=conc, origin=None))
+    return res
+
+
 def run_kani_unit(name, tier):
+    if name == 'b_enttab':
+        return _enttab(name)
     if name == 'b_henc':
         return _sweep(name, 'henc', ['%s\t%s' % c for c in HENC_CASES],
                       '%d documents x every 2-chunk split; EncodingIndicators raised vs the labels the WHATWG rules prescribe' % len(HENC_CASES))
